@@ -285,6 +285,30 @@ def parts(tier):
     ps.append(InputPart("crop-points-far-from-zero", gen_pt_big, lambda c: _check_pt(c, True),
                         rule="point subsets (<=%d) and windows on the far-from-zero grid, bit-exact" % (2 if quick else 3), bounds={}))
 
+    # the size axis: long tiers (10 .. 258 entries; thorough up to 1000), windows at / in / between the probed entries
+    def gen_size():
+        for n, layout, e in D.size_family(quick):
+            hi = e[-1][1] + 1.0
+            for a, b in D.size_windows(D.size_cuts(e)):
+                yield (e, -1.0, hi, a, b)
+        for n in (D.SIZES_QUICK if quick else D.SIZES_THOROUGH):
+            p = D.long_points(n)
+            cuts = D.size_cuts(p)
+            for a, b in D.size_windows(cuts, near=4, far=2):
+                yield ("P", p, -1.0, n + 1.0, a, b)
+
+    def chk_size(c):
+        if c[0] == "P":
+            return _check_pt(c[1:], True)
+        return _check_iv(c, True)
+
+    ps.append(InputPart(
+        "crop-size-sweep", gen_size, chk_size,
+        rule="interval tiers of %s entries (with 0.5 s gaps, and contiguous) and point tiers of the same sizes x windows whose edges lie just before / "
+             "at / inside / at the end of the entries at both ends, at the bisection probes (n/4, n/2, 3n/4), at indices 8-10, 15-16 and 255-257 "
+             "(each edge paired with the next 8 cut times and with the last 4): exact model, bit for bit"
+             % (list(D.SIZES_QUICK if quick else D.SIZES_THOROUGH),), bounds={"sizes": list(D.SIZES_QUICK if quick else D.SIZES_THOROUGH)}, chunk=4))
+
     # Textgrid.crop: 3 tiers
     tgrid = D.unit_grid(5)
     tsets = D.interval_sets(tgrid, 2)
